@@ -259,6 +259,16 @@ impl<'a> LspServer<'a> {
                 Err(notification) => notification,
             };
 
+        let _notification =
+            match Self::cast_notification::<notification::DidCloseTextDocument>(notification) {
+                Ok(params) => {
+                    // A closed document is no longer part of what is analysed
+                    self.project.close_text_document(&params.text_document.uri);
+                    return notification::DidCloseTextDocument::METHOD;
+                }
+                Err(notification) => notification,
+            };
+
         ""
     }
 
